@@ -521,11 +521,11 @@ func (vc *VC) zeroOfSort(s Sort) Term {
 	case SStr:
 		return Term{"emptystr", SStr}
 	case SPtr:
-		return NilP
+		return Term{"(mkptr 0 PNil)", SPtr}
 	case SSlice:
-		return NilS
+		return Term{"(mkslice (mkptr 0 PNil) 0 0 0)", SSlice}
 	case SIface:
-		return NilI
+		return Term{"(mkiface 0 (mkptr 0 PNil))", SIface}
 	}
 	if s.IsBV() {
 		return BVLit(big.NewInt(0), s.BVWidth())
